@@ -1290,6 +1290,23 @@ func (x *Exec) evalBuiltinSpec(ce *CEnv, name string, args []Expr) (*Val, bool) 
 		k := "G_" + id.Name
 		x.registerGhost(k)
 		return &Val{Typ: intT, T: x.getHeap(ce.st, k)}, true
+	case "upred":
+		// upred("name", args...): an uninterpreted predicate (used by trusted contracts to
+		// pass facts between library functions, e.g. "the string has a non-space character")
+		ns, ok := args[0].(*EString)
+		if !ok {
+			cfail("upred needs a string literal name")
+		}
+		var sorts []string
+		var ts []*smt.Term
+		for _, a := range args[1:] {
+			t := x.asTerm(x.eval(ce, a))
+			sorts = append(sorts, t.Sort)
+			ts = append(ts, t)
+		}
+		name := "upred_" + smt.Sanitize(ns.V)
+		x.declareUF(name, sorts, "Bool")
+		return &Val{Typ: boolT, T: x.b.App(name, "Bool", ts...)}, true
 	case "same":
 		// same(a, b): structural (bit-for-bit) equality, unlike Go's == on floats
 		a := x.eval(ce, args[0])
